@@ -1397,11 +1397,7 @@ class AstEval:
             for lhs_elt in lhs.elts:
                 if isinstance(lhs_elt, ast.Starred):
                     star_len = len(vals) - len(lhs.elts) + 1
-                    star_name = lhs_elt.value.id
-                    await self.recurse_assign(
-                        ast.Name(id=star_name, ctx=ast.Store()),
-                        vals[val_idx : val_idx + star_len],
-                    )
+                    await self.recurse_assign(lhs_elt.value, vals[val_idx : val_idx + star_len])
                     val_idx += star_len
                 else:
                     await self.recurse_assign(lhs_elt, vals[val_idx])
@@ -2016,9 +2012,8 @@ class AstEval:
         if isinstance(lhs, (ast.Tuple, ast.List)):
             for lhs_elt in lhs.elts:
                 if isinstance(lhs_elt, ast.Starred):
-                    names.add(lhs_elt.value.id)
-                else:
-                    names = names.union(await self.get_target_names(lhs_elt))
+                    lhs_elt = lhs_elt.value
+                names = names.union(await self.get_target_names(lhs_elt))
         elif isinstance(lhs, ast.Attribute):
             var_name = await self.ast_attribute_collapse(lhs, check_undef=False)
             if isinstance(var_name, str):
